@@ -26,6 +26,7 @@ import SqiProofs.C17.RepInt
 import SqiProofs.C17.CornComplete
 import SqiProofs.C17.CornGeneral
 import SqiProofs.C17.Unit
+import SqiProofs.C17.Translated
 import SqiProofs.Primes
 
 namespace SqiProps.C17
@@ -807,5 +808,76 @@ theorem xgcd_ann_unimodular (a b : Int) (h : a ≠ 0 ∨ b ≠ 0) :
   rcases Int.mul_eq_zero.mp this with h1 | h1
   · exact absurd h1 hg0
   · omega
+
+/-! ## 11. Tie T — the definitions TRANSLATED from the C text equal the hand models
+
+`SqiGen.Intbig.*` is regenerated from src/intbig/ref/generic/intbig.c on every run by tools/translate/intbig.py (let / if /
+loop combinators / GMP primitives of `SqiModel.CProg`).  The equations below make every theorem of this file a theorem about
+the translated code; an edit of the C control flow or of an mpz call sequence changes the generated definition and breaks the
+equation (seeded change C17-m1: `mpz_set_ui(exp, 1UL << (e − 2))` is translated to the partial word shift `ulShl`, and
+`translated_sqrt_mod_p_eq` no longer checks). -/
+
+theorem translated_div_eq (q r a b : Int) : SqiGen.Intbig.ibz_div q r a b = ibzDiv a b := gen_ibz_div q r a b
+theorem translated_div_2exp_eq (q a : Int) (e : Nat) : SqiGen.Intbig.ibz_div_2exp q a e = ibzDiv2exp a e := gen_ibz_div_2exp q a e
+theorem translated_xgcd_eq (g u v a b : Int) : SqiGen.Intbig.ibz_xgcd g u v a b = ibzXgcd a b := gen_ibz_xgcd g u v a b
+theorem translated_mod_eq (r a b : Int) : SqiGen.Intbig.ibz_mod r a b = ibzMod a b := gen_ibz_mod r a b
+theorem translated_div_floor_eq (q r n d : Int) : SqiGen.Intbig.ibz_div_floor q r n d = ibzDivFloor n d :=
+  gen_ibz_div_floor q r n d
+theorem translated_two_adic_eq (a : Int) : SqiGen.Intbig.ibz_two_adic a = (ibzTwoAdic a : Nat) := gen_ibz_two_adic a
+theorem translated_crt_eq (crt a b ma mb : Int) : SqiGen.Intbig.ibz_crt crt a b ma mb = ibzCrt a b ma mb :=
+  gen_ibz_crt crt a b ma mb
+/-- all three branches, both `while` loops, the Tonelli–Shanks `for` loop and the early exit, for every modulus p > 0 -/
+theorem translated_sqrt_mod_p_eq (sqrt a p : Int) (hp : 0 < p) :
+    SqiGen.Intbig.ibz_sqrt_mod_p sqrt a p = ibzSqrtModP a p := gen_ibz_sqrt_mod_p sqrt a p hp
+theorem translated_sqrt_mod_2p_eq (sqrt a p : Int) (hp : 0 < p) :
+    SqiGen.Intbig.ibz_sqrt_mod_2p sqrt a p = ibzSqrtMod2P a p := gen_ibz_sqrt_mod_2p sqrt a p hp
+
+/-- mask computation (`(mp_limb_t)-1 >> ((64 − len_bits % 64) % 64)`, a partial word shift in the translated code) and the
+    rejection `do … while (1)` loop over `randombytes` -/
+theorem translated_rand_interval_eq (rand a b : Int) (stream : List Nat) :
+    SqiGen.Intbig.ibz_rand_interval rand a b stream = ibzRandInterval a b stream := gen_ibz_rand_interval rand a b stream
+
+/-- `ibz_rand_interval`, translated code: never undefined, and every accepted sample lies in [a, b] -/
+theorem translated_rand_interval_spec (rand a b : Int) (stream : List Nat) :
+    SqiGen.Intbig.ibz_rand_interval rand a b stream ≠ .ub ∧
+    ∀ r rest, SqiGen.Intbig.ibz_rand_interval rand a b stream = .ok (r, rest) → a ≤ r ∧ r ≤ b := by
+  rw [translated_rand_interval_eq]
+  exact ⟨rand_interval_never_ub a b stream, fun r rest h => rand_interval_range_c a b stream r rest h⟩
+
+/-- `ibz_cornacchia_prime` (integers.c): p = 2 branch, call of the translated `ibz_sqrt_mod_p`, Euclidean `while` loop with its
+    partial division, the `res = res && …` chain -/
+theorem translated_cornacchia_prime_eq (x y n p : Int) (hp : 0 < p) (hn : n ≠ 0) :
+    SqiGen.Intbig.ibz_cornacchia_prime x y n p = ibzCornacchiaPrime n p := gen_ibz_cornacchia_prime x y n p hp hn
+
+/-- `ibz_cornacchia_prime`, translated code: never a false solution; and for an odd prime p and n ≥ 1 a solution is returned
+    whenever one with x ≠ 0 exists -/
+theorem translated_cornacchia_prime_spec (pn : Nat) (hp : pn.Prime) (n : Int) (hn : 1 ≤ n) (x y : Int) :
+    (∀ x' y', SqiGen.Intbig.ibz_cornacchia_prime x y n pn = .ok (x', y') → x' * x' + n * (y' * y') = pn) ∧
+    (pn ≠ 2 → ∀ x0 y0 : Int, x0 ≠ 0 → x0 * x0 + n * (y0 * y0) = pn →
+      ∃ x' y', SqiGen.Intbig.ibz_cornacchia_prime x y n pn = .ok (x', y')) := by
+  have hpos : (0 : Int) < pn := by have := hp.pos; omega
+  rw [translated_cornacchia_prime_eq x y n pn hpos (by omega)]
+  refine ⟨fun x' y' h => cornacchia_prime_sound n pn x' y' h, ?_⟩
+  intro hp2 x0 y0 hx0 hsol
+  obtain ⟨x', y', h, _⟩ := cornacchia_prime_complete pn hp hp2 n x0 y0 hn hx0 hsol
+  exact ⟨x', y', h⟩
+
+/-- the specification of `ibz_sqrt_mod_p`, stated directly about the translated code: for every prime p and every a (and
+    whatever the output variable contained) — sound, complete, never aborting -/
+theorem translated_sqrt_mod_p_spec (pn : Nat) (hp : pn.Prime) (sqrt a : Int) :
+    (∀ r, SqiGen.Intbig.ibz_sqrt_mod_p sqrt a pn = .ok r → 0 ≤ r ∧ r < pn ∧ (r * r - a) % pn = 0) ∧
+    (IsSquare (a : ZMod pn) → ∃ r, SqiGen.Intbig.ibz_sqrt_mod_p sqrt a pn = .ok r) ∧
+    (SqiGen.Intbig.ibz_sqrt_mod_p sqrt a pn = .fail ↔ ¬ IsSquare (a : ZMod pn)) ∧
+    SqiGen.Intbig.ibz_sqrt_mod_p sqrt a pn ≠ .ub := by
+  have hpos : (0 : Int) < pn := by have := hp.pos; omega
+  rw [translated_sqrt_mod_p_eq sqrt a pn hpos]
+  exact ⟨fun r h => sqrt_mod_p_sound pn hp a r h, sqrt_mod_p_complete pn hp a,
+    (sqrt_mod_p_fail_iff pn hp a).1, (sqrt_mod_p_fail_iff pn hp a).2⟩
+
+/-- `ibz_crt`, translated code, coprime non-zero moduli -/
+theorem translated_crt_spec (crt a b ma mb : Int) (hcop : Int.gcd ma mb = 1) (hma : ma ≠ 0) (hmb : mb ≠ 0) :
+    SqiGen.Intbig.ibz_crt crt a b ma mb % ma = a % ma ∧ SqiGen.Intbig.ibz_crt crt a b ma mb % mb = b % mb ∧
+    0 ≤ SqiGen.Intbig.ibz_crt crt a b ma mb ∧ SqiGen.Intbig.ibz_crt crt a b ma mb < ((ma * mb).natAbs : Int) := by
+  rw [translated_crt_eq]; exact crt_spec a b ma mb hcop hma hmb
 
 end SqiProps.C17
